@@ -208,10 +208,10 @@ def c13(r):
     r.tlc_exhaustive("World.tla", "World_live.cfg", workers=8)
     r.tlc_exhaustive("Loops.tla", "Loops_agg.cfg", workers=4)
     # deviations: plain sleep, plain send, and an error channel with fewer slots than reporting workers
-    for cfg in ("Loops_sleep.cfg", "Loops_send.cfg", "Loops_errcap1.cfg", "Loops_errcap0.cfg"):
+    for cfg in ("Loops_sleep.cfg", "Loops_send.cfg", "Loops_errcap1.cfg", "Loops_errcap0.cfg", "Loops_unjoined.cfg"):
         ok, _ = r.tlc_exhaustive("Loops.tla", cfg, workers=4, expect_ok=False)
         if ok:
-            raise Inconclusive(cfg + " should reproduce a shutdown hang")
+            raise Inconclusive(cfg + " should reproduce a shutdown hang / a worker Run does not wait for")
     # the real node.FullNode.Run, stopped / failing while workers wait inside the execution layer
     tn = r.drive("fullnode", name="fullnode", timeout=1500)
     st = r.driver_stats.get("fullnode", {})
